@@ -9,6 +9,7 @@ import (
 	"context"
 	"crypto/md5"
 	"encoding/hex"
+	"encoding/json"
 	"fmt"
 	"math/big"
 	"os"
@@ -585,17 +586,19 @@ func checkNoFalseNegative(c *vh.Ctx, what string, bloom types.Bloom, l *types.Lo
 type rowSource func(bit uint, section uint64) []byte
 
 type backend struct {
-	w        *world
-	size     uint64
-	sections uint64
-	rows     rowSource
-	threads  int
-	batch    int
-	flaky    uint32 // every flaky-th delivery is left empty once (re-requested by the matcher); 0 = never
-	counter  uint32
-	mux      *event.TypeMux
-	feed     event.Feed
-	node     *aqua.VerifBloomNode // if set: BloomStatus and ServiceFilter are the production ones (AquaApiBackend + startBloomHandlers)
+	w                   *world
+	size                uint64
+	sections            uint64
+	rows                rowSource
+	threads             int
+	batch               int
+	flaky               uint32 // every flaky-th delivery is left empty once (re-requested by the matcher); 0 = never
+	counter             uint32
+	mux                 *event.TypeMux
+	feed                event.Feed // tx events
+	feedC, feedR, feedL event.Feed // chain, removed-logs, logs events (a Feed carries one type)
+	papi                *filters.PublicFilterAPI
+	node                *aqua.VerifBloomNode // if set: BloomStatus and ServiceFilter are the production ones (AquaApiBackend + startBloomHandlers)
 }
 
 func (b *backend) refresh() {
@@ -611,13 +614,13 @@ func (b *backend) SubscribeTxPreEvent(ch chan<- core.TxPreEvent) event.Subscript
 	return b.feed.Subscribe(ch)
 }
 func (b *backend) SubscribeChainEvent(ch chan<- core.ChainEvent) event.Subscription {
-	return b.feed.Subscribe(ch)
+	return b.feedC.Subscribe(ch)
 }
 func (b *backend) SubscribeRemovedLogsEvent(ch chan<- core.RemovedLogsEvent) event.Subscription {
-	return b.feed.Subscribe(ch)
+	return b.feedR.Subscribe(ch)
 }
 func (b *backend) SubscribeLogsEvent(ch chan<- []*types.Log) event.Subscription {
-	return b.feed.Subscribe(ch)
+	return b.feedL.Subscribe(ch)
 }
 func (b *backend) BloomStatus() (uint64, uint64) {
 	if b.node != nil {
@@ -743,6 +746,137 @@ func genErr(err error) string {
 		return "err-mult8"
 	}
 	return "err-other:" + err.Error()
+}
+
+// ---------------------------------------------------------------- the RPC layer (aqua/filters/api.go)
+
+// runAPI: PublicFilterAPI.GetLogs with the criteria decoded from JSON text (FilterCriteria.UnmarshalJSON),
+// every way a wildcard / single value / alternative list can be written.  from/to: "" (omitted), "latest",
+// "earliest", "pending" or a block number in hex.
+func (w *world) runAPI(bk *backend, r *vh.RNG, from, to string, cr criteria, cls string) {
+	c, m := w.c, w.m
+	bk.refresh()
+	num := func(s string) int64 {
+		switch s {
+		case "", "latest":
+			return -1
+		case "earliest":
+			return 0
+		case "pending":
+			return -2
+		}
+		var n int64
+		fmt.Sscanf(s, "0x%x", &n)
+		return n
+	}
+	q := func(x string) string { return `"` + x + `"` }
+	var fields []string
+	if from != "" {
+		fields = append(fields, `"fromBlock":`+q(from))
+	}
+	if to != "" {
+		fields = append(fields, `"toBlock":`+q(to))
+	}
+	switch {
+	case len(cr.addrs) == 0 && r.Bool():
+		fields = append(fields, `"address":[]`)
+	case len(cr.addrs) == 1 && r.Bool():
+		fields = append(fields, `"address":`+q(cr.addrs[0].Hex()))
+	case len(cr.addrs) > 0:
+		var as []string
+		for _, a := range cr.addrs {
+			as = append(as, q(vh.Hex(a[:])))
+		}
+		fields = append(fields, `"address":[`+strings.Join(as, ",")+`]`)
+	}
+	if len(cr.tops) > 0 {
+		var ps []string
+		for _, alts := range cr.tops {
+			var as []string
+			for _, t := range alts {
+				as = append(as, q(vh.Hex(t[:])))
+			}
+			switch {
+			case len(alts) == 0:
+				ps = append(ps, []string{"null", "[]", "[null]", "[" + q(vh.Hex(w.topPool[0][:])) + ",null]", "[null," + q(vh.Hex(w.topPool[1][:])) + "]"}[r.Intn(5)])
+			case len(alts) == 1 && r.Bool():
+				ps = append(ps, as[0])
+			default:
+				ps = append(ps, "["+strings.Join(as, ",")+"]")
+			}
+		}
+		fields = append(fields, `"topics":[`+strings.Join(ps, ",")+`]`)
+	}
+	text := "{" + strings.Join(fields, ",") + "}"
+	b, e := num(from), num(to)
+	var got []uint64
+	obs := ""
+	p, pv := vh.CatchPanic(func() {
+		var fc filters.FilterCriteria
+		if err := json.Unmarshal([]byte(text), &fc); err != nil {
+			obs = "err-json"
+			return
+		}
+		ctx, cancel := context.WithTimeout(context.Background(), 20*time.Second)
+		defer cancel()
+		logs, err := bk.api().GetLogs(ctx, fc)
+		if err != nil {
+			obs = "err"
+			return
+		}
+		if logs == nil {
+			obs = "nil-slice"
+			return
+		}
+		for _, l := range logs {
+			got = append(got, tagOf(l))
+		}
+		obs = tagsTok(got)
+	})
+	if p {
+		obs = fmt.Sprintf("panic %v", pv)
+	}
+	cas := fmt.Sprintf("query %d %d %d %d %s %s", bk.size, bk.sections, b, e, cr.addrTok(), cr.topTok())
+	// the oracle: pending and latest both end at the current head
+	eo := e
+	if eo == -2 {
+		eo = -1
+	}
+	want := w.brute(b, eo, cr)
+	key := ""
+	if len(want) > 0 {
+		key = text
+	}
+	c.Eval(fmt.Sprintf("api-getlogs/%s/from=%s,to=%s/hits=%s", cls, apiCls(from), apiCls(to), bucket(len(want))), key)
+	c.Correspond("PublicFilterAPI.GetLogs(JSON criteria)~filter_query", text+" => "+cas, obs, m.Ask(cas))
+	if obs != tagsTok(want) {
+		sig := "getlogs-inexact/" + text
+		if to == "pending" && !p && len(got) < len(want) {
+			// recognised class: toBlock "pending" (-2) becomes end = 2^64-2; the indexed part runs to
+			// sections*size-1 and unindexedLogs' loop `f.begin <= int64(end)` never runs
+			sig = "getlogs-toblock-pending-skips-unindexed-blocks"
+		}
+		violate(c, sig, "aqua_getLogs differs from the brute-force scan of the canonical receipts",
+			map[string]string{"criteria_json": text, "index": fmt.Sprintf("section size %d, %d sections", bk.size, bk.sections),
+				"head": fmt.Sprint(w.head()), "getlogs": obs, "bruteforce": tagsTok(want), "step": cls})
+	}
+}
+
+func apiCls(s string) string {
+	if strings.HasPrefix(s, "0x") {
+		return "number"
+	}
+	if s == "" {
+		return "omitted"
+	}
+	return s
+}
+
+func (b *backend) api() *filters.PublicFilterAPI {
+	if b.papi == nil {
+		b.papi = filters.NewPublicFilterAPI(b, false)
+	}
+	return b.papi
 }
 
 // ---------------------------------------------------------------- criteria / ranges
@@ -1080,6 +1214,30 @@ func (w *world) runMatcher(bk *backend, b, e uint64, cr criteria) {
 		}
 		fl = append(fl, f)
 	}
+	obs, got := startMatcher(bk, fl, b, e)
+	cas := fmt.Sprintf("matcher %d %d %d %s %s", bk.size, b, e, cr.addrTok(), cr.topTok())
+	key := ""
+	if len(got) > 0 {
+		key = cas
+	}
+	c.Eval(fmt.Sprintf("matcher/size=%d/hits=%s", bk.size, bucket(len(got))), key)
+	c.Correspond("Matcher.Start~matcher_run", cas, obs, m.Ask(cas))
+	c.Correspond("Matcher.Start~matcher_run_b (byte level: packed rows, zero-byte skip)", "matcherb"+cas[7:], obs, m.Ask("matcherb"+cas[7:]))
+	// direct oracle: exactly the blocks of the range whose header bloom passes bloomFilter, ascending
+	var want []uint64
+	for n := b; n <= e && n <= w.head(); n++ {
+		if filters.VerifBloomFilter(w.blooms[n], cr.addrs, cr.tops) {
+			want = append(want, n)
+		}
+	}
+	if numsTok(want) != obs {
+		violate(c, "matcher-differs-from-bloomfilter/"+cas, "bloombits matcher result differs from bloomFilter over the headers of the range",
+			map[string]string{"case": cas, "matcher": obs, "bloomfilter": numsTok(want)})
+	}
+}
+
+// startMatcher runs bloombits.NewMatcher(size, fl).Start(b, e) to the end, serviced by the backend
+func startMatcher(bk *backend, fl [][][]byte, b, e uint64) (string, []uint64) {
 	ctx, cancel := context.WithTimeout(context.Background(), 20*time.Second)
 	defer cancel()
 	var got []uint64
@@ -1112,23 +1270,64 @@ func (w *world) runMatcher(bk *backend, b, e uint64, cr criteria) {
 	if p {
 		obs = fmt.Sprintf("panic %v", pv)
 	}
-	cas := fmt.Sprintf("matcher %d %d %d %s %s", bk.size, b, e, cr.addrTok(), cr.topTok())
+	return obs, got
+}
+
+// the Matcher driven with raw clauses, including nil alternatives (NewMatcher: a nil alternative makes
+// its whole clause a wildcard) and empty clauses — shapes filters.New never produces
+func (w *world) runMatcherRaw(bk *backend, b, e uint64, fl [][][]byte) {
+	c, m := w.c, w.m
+	obs, got := startMatcher(bk, fl, b, e)
+	var cl []string
+	for _, f := range fl {
+		if len(f) == 0 {
+			cl = append(cl, "*")
+			continue
+		}
+		var al []string
+		for _, x := range f {
+			if x == nil {
+				al = append(al, "nil")
+			} else {
+				al = append(al, vh.Hex(x))
+			}
+		}
+		cl = append(cl, strings.Join(al, ","))
+	}
+	ct := "-"
+	if len(cl) > 0 {
+		ct = strings.Join(cl, "/")
+	}
+	cas := fmt.Sprintf("matcherraw %d %d %d %s", bk.size, b, e, ct)
 	key := ""
 	if len(got) > 0 {
 		key = cas
 	}
-	c.Eval(fmt.Sprintf("matcher/size=%d/hits=%s", bk.size, bucket(len(got))), key)
-	c.Correspond("Matcher.Start~matcher_run", cas, obs, m.Ask(cas))
-	// direct oracle: exactly the blocks of the range whose header bloom passes bloomFilter, ascending
+	c.Eval(fmt.Sprintf("matcher-raw/size=%d/hits=%s", bk.size, bucket(len(got))), key)
+	c.Correspond("NewMatcher(raw clauses).Start~new_matcher_filters,matcher_run", cas, obs, m.Ask(cas))
+	// direct oracle: a block passes when every clause that is non-empty and has no nil alternative
+	// has an alternative whose three bloom bits are set
 	var want []uint64
 	for n := b; n <= e && n <= w.head(); n++ {
-		if filters.VerifBloomFilter(w.blooms[n], cr.addrs, cr.tops) {
+		ok := true
+		for _, f := range fl {
+			wild, hit := len(f) == 0, false
+			for _, x := range f {
+				if x == nil {
+					wild = true
+				} else if types.BloomLookup(w.blooms[n], common.BytesToHash(x)) && len(x) == 32 || len(x) == 20 && types.BloomLookup(w.blooms[n], common.BytesToAddress(x)) {
+					hit = true
+				}
+			}
+			ok = ok && (wild || hit)
+		}
+		if ok {
 			want = append(want, n)
 		}
 	}
 	if numsTok(want) != obs {
-		violate(c, "matcher-differs-from-bloomfilter/"+cas, "bloombits matcher result differs from bloomFilter over the headers of the range",
-			map[string]string{"case": cas, "matcher": obs, "bloomfilter": numsTok(want)})
+		violate(c, "matcher-raw-differs-from-bloom/"+cas, "bloombits matcher with raw clauses differs from the bloom test over the headers of the range",
+			map[string]string{"case": cas, "matcher": obs, "bloom": numsTok(want)})
 	}
 }
 
@@ -1798,6 +1997,62 @@ func main() {
 			for _, cr := range dense {
 				short.runMatcher(newBk(full), uint64(rg[0]), uint64(rg[1]), cr)
 			}
+		}
+		// the matcher with raw clauses (nil alternatives, empty clauses): shapes filters.New never produces
+		for i := 0; i < c.Scale(12, 60); i++ {
+			cr := short.genCriteria(r)
+			var fl [][][]byte
+			for _, a := range cr.addrs {
+				fl = append(fl, [][]byte{a.Bytes()})
+			}
+			for _, alts := range cr.tops {
+				var f [][]byte
+				for _, t := range alts {
+					f = append(f, t.Bytes())
+				}
+				fl = append(fl, f)
+			}
+			if len(short.allLogs) > 0 { // a clause that certainly hits somewhere
+				l := short.allLogs[r.Intn(len(short.allLogs))]
+				fl = append(fl, [][]byte{l.Address.Bytes(), short.topPool[r.Intn(len(short.topPool))].Bytes()})
+			}
+			switch i % 4 {
+			case 0:
+				fl = append(fl, [][]byte{r.Bytes(32), nil}) // foreign value OR nil: the clause must not constrain
+			case 1:
+				fl = append([][][]byte{{nil}}, fl...)
+			case 2:
+				fl = append(fl, [][]byte{}, [][]byte{nil, nil})
+			}
+			hi := full*size - 1
+			short.runMatcherRaw(newBk(full), uint64(r.Intn(int(hi)/2)), hi-uint64(r.Intn(9)), fl)
+		}
+		// the RPC layer: aqua_getLogs with JSON criteria
+		apiBk := map[uint64]*backend{}
+		for i := 0; i < c.Scale(36, 200); i++ {
+			sections := []uint64{full, full / 2, 0, 3}[i%4]
+			if apiBk[sections] == nil {
+				apiBk[sections] = newBk(sections)
+			}
+			cr := short.genCriteria(r)
+			if i%6 == 0 {
+				cr = criteria{addrs: []common.Address{short.addrPool[2], short.addrPool[0]}, tops: [][]common.Hash{nil}}
+			}
+			hexn := func(n uint64) string { return fmt.Sprintf("0x%x", n) }
+			from := []string{"", "latest", "earliest", hexn(uint64(r.Intn(int(short.head()) + 1))), hexn(sections * size), "0x0"}[r.Intn(6)]
+			to := []string{"", "latest", hexn(short.head() + 5), hexn(uint64(r.Intn(int(short.head()) + 1))), hexn(sections*size + 2)}[r.Intn(5)]
+			if i%6 == 0 {
+				from, to = "earliest", ""
+			}
+			short.runAPI(apiBk[sections], r, from, to, cr, "short")
+		}
+		// toBlock "pending" (the open end of the JSON-RPC interface besides "latest")
+		for _, sections := range []uint64{full / 2, 0} {
+			if apiBk[sections] == nil {
+				apiBk[sections] = newBk(sections)
+			}
+			short.runAPI(apiBk[sections], r, "earliest", "pending", criteria{addrs: []common.Address{short.addrPool[2], short.addrPool[0]}}, "short-pending")
+			short.runAPI(apiBk[sections], r, fmt.Sprintf("0x%x", short.head()-20), "pending", criteria{}, "short-pending")
 		}
 		nq := c.Scale(80, 600)
 		for q := 0; q < nq; q++ {
